@@ -1,0 +1,67 @@
+//go:build verif
+
+// Read-only accessors of the IVF index used by the verification harness in /verif
+// (build tag "verif"). Nothing here is compiled into normal builds.
+
+package comet
+
+// VerifIVFCentroids returns a copy of the trained centroids (nil before training).
+func (idx *IVFIndex) VerifIVFCentroids() [][]float32 {
+	idx.mu.RLock()
+	defer idx.mu.RUnlock()
+	if idx.centroids == nil {
+		return nil
+	}
+	out := make([][]float32, len(idx.centroids))
+	for i, c := range idx.centroids {
+		out[i] = append([]float32(nil), c...)
+	}
+	return out
+}
+
+// VerifIVFLists returns, per inverted list and in slice order, the stored ids and
+// copies of the stored (preprocessed) vectors.
+func (idx *IVFIndex) VerifIVFLists() (ids [][]uint32, vecs [][][]float32) {
+	idx.mu.RLock()
+	defer idx.mu.RUnlock()
+	ids = make([][]uint32, len(idx.lists))
+	vecs = make([][][]float32, len(idx.lists))
+	for l, list := range idx.lists {
+		for _, v := range list {
+			ids[l] = append(ids[l], v.ID())
+			vecs[l] = append(vecs[l], append([]float32(nil), v.Vector()...))
+		}
+	}
+	return
+}
+
+// VerifIVFListsOf returns the indexes of all inverted lists that hold an entry with
+// the given id (ascending; empty when the id is not stored).
+func (idx *IVFIndex) VerifIVFListsOf(id uint32) []int {
+	idx.mu.RLock()
+	defer idx.mu.RUnlock()
+	var out []int
+	for l, list := range idx.lists {
+		for _, v := range list {
+			if v.ID() == id {
+				out = append(out, l)
+				break
+			}
+		}
+	}
+	return out
+}
+
+// VerifIVFDeleted returns the soft-deleted ids (ascending).
+func (idx *IVFIndex) VerifIVFDeleted() []uint32 {
+	idx.mu.RLock()
+	defer idx.mu.RUnlock()
+	return idx.deletedNodes.ToArray()
+}
+
+// VerifIVFTrained reports the trained flag and nlist.
+func (idx *IVFIndex) VerifIVFTrained() (trained bool, nlist int) {
+	idx.mu.RLock()
+	defer idx.mu.RUnlock()
+	return idx.trained, idx.nlist
+}
